@@ -39,6 +39,14 @@ class Closure(PyObj):
         self.node, self.env = node, env
 
 
+class Partial(PyObj):
+    """functools.partial(fn, *args, **kwargs): calling it calls fn with the stored arguments first (added for the TLS
+    parsers, which hand `partial(pull_key_share, buf)` to tls.pull_list)."""
+
+    def __init__(self, fn, args, kwargs):
+        self.fn, self.args, self.kwargs = fn, list(args), dict(kwargs)
+
+
 class SpecFunc(PyObj):
     def __init__(self, name, node):
         self.name, self.node = name, node
